@@ -804,15 +804,15 @@ def m_headers(s):
         c = copy.deepcopy(s)
         c['types'][ti]['elems'].append({'k': 'type', 'name': fresh(s, 'extra'), 'prim': 'uint32'})
         if role == 'data':
-            yield Mut(c, 'header', 'dataHeaderLayout', hp, 'data header: extra member behind varData', 'reject', 'layout')
+            yield Mut(c, 'header', 'dataHeaderLayout', hp + ['length'], 'data header: extra member behind varData', 'reject', 'layout')
         else:
             yield Mut(c, 'header', None, hp, '%s header with an extra trailing member' % role, 'accept', '')
 
 
 def m_data_header_layout(s):
-    """known-finding probe (b): data headers whose `length` is not at offset 0 /
-    that have extra members.  sbeppc has no rule for it; the runtime reads the
-    length at offset 0 (see c08.py)."""
+    """the runtime reads a <data> length at offset 0 and the payload right behind it: the header
+    composite must occupy exactly the bytes of its `length` member (sbeppc: validate_data_header_layout,
+    diagnostic located at the `length` member)"""
     roles = header_composites(s)
     for ti, t in enumerate(s['types']):
         if roles.get(t['name'].lower()) != 'data' or t['k'] != 'composite':
@@ -820,16 +820,27 @@ def m_data_header_layout(s):
         hp = ['types', t['name']]
         c = copy.deepcopy(s)
         c['types'][ti]['elems'].insert(0, {'k': 'type', 'name': fresh(s, 'pad'), 'prim': 'uint16'})
-        yield Mut(c, 'header', 'dataHeaderLayout', hp, 'data header: member in front of `length`', 'reject', 'layout')
+        yield Mut(c, 'header', 'dataHeaderLayout', hp + ['length'], 'data header: member in front of `length`', 'reject', 'layout')
+        c = copy.deepcopy(s)
+        c['types'][ti]['elems'].insert(0, {'k': 'type', 'name': fresh(s, 'pad'), 'prim': 'char', 'length': 0})
+        yield Mut(c, 'header', None, hp, 'data header: empty member in front of `length`', 'accept', 'layout')
         c = copy.deepcopy(s)
         c['types'][ti]['elems'].reverse()
         if c['types'][ti]['elems'] != t['elems']:
-            yield Mut(c, 'header', 'dataHeaderLayout', hp, 'data header: varData before length', 'reject', 'layout')
+            yield Mut(c, 'header', None, hp, 'data header: varData (empty) before length', 'accept', 'layout')
         c = copy.deepcopy(s)
         li = [i for i, x in enumerate(t['elems']) if x['name'] == 'length']
         if li and t['elems'][li[0]].get('offset') in (None, 0) and li[0] == 0:
             c['types'][ti]['elems'][li[0]]['offset'] = 3
-            yield Mut(c, 'header', 'dataHeaderLayout', hp, 'data header: length at offset 3', 'reject', 'layout')
+            yield Mut(c, 'header', 'dataHeaderLayout', hp + ['length'], 'data header: length at offset 3', 'reject', 'layout')
+            c = copy.deepcopy(s)
+            c['types'][ti]['elems'][li[0]]['offset'] = 0
+            yield Mut(c, 'header', None, hp, 'data header: length at explicit offset 0', 'accept', 'layout')
+        vi = [i for i, x in enumerate(t['elems']) if x['name'] == 'varData']
+        if vi and li and vi[0] > li[0]:
+            c = copy.deepcopy(s)
+            c['types'][ti]['elems'][vi[0]]['offset'] = elem_size(t['elems'][li[0]], s['types']) + 1
+            yield Mut(c, 'header', 'dataHeaderLayout', hp + ['length'], 'data header: gap between length and varData', 'reject', 'layout')
 
 
 def all_named(s):
@@ -1010,7 +1021,7 @@ def m_constants(s, rng):
                     c = copy.deepcopy(s)
                     get(c, addr)['length'] = ln
                     yield Mut(c, 'constant', 'nonCharConstantLength', path, '%s numeric constant' % kind, 'reject', 'length %d' % ln)
-    # known-finding probe (a): an enum whose encodingType is a *named* char type, and constants that refer to it
+    # (former finding a) an enum whose encodingType is a *named* char type, and constants that refer to it
     ct, ce = fresh(s, 'CharT'), fresh(s, 'CharE')
     base = copy.deepcopy(s)
     base['types'].append({'k': 'type', 'name': ct, 'prim': 'char'})
